@@ -81,7 +81,8 @@ type c01issCase struct {
 	Backend          string            `json:"backend,omitempty"`     // "" in-memory Locker double | "file": the real FileStorage behind the gate
 	// file back-end: the instance that held the turn of thread 0's lock died and left its lock file behind:
 	// "empty" (killed between the O_EXCL create and the write of the timestamp), "stale" (timestamp an hour old),
-	// "fresh" (timestamp of this moment: the waiters take over after the staleness bound of 2 x 5 s)
+	// "fresh" (timestamp of this moment: the waiters take over after the staleness bound of 2 x 5 s),
+	// "empty-fresh" (empty and just modified: given up after the same bound). "empty" and "stale" files are an hour old.
 	CrashLock string `json:"crash_lock,omitempty"`
 	// tid -> milliseconds the driver lets pass (once) before it grants the gate the thread is paused at, while
 	// nothing else can run: a slow holder. A waiter must still be waiting afterwards (FileStorage keeps the
@@ -877,7 +878,7 @@ func (e *c01issEnv) stepThread(rt *c01issRT) error {
 		expected++
 	}
 	hung := false
-	if bound, ok := map[string]time.Duration{"empty": 8 * time.Second, "stale": 8 * time.Second, "fresh": 25 * time.Second}[e.cs.CrashLock]; ok && kind == "Lock" && expected == 1 && f == c01fNone {
+	if bound, ok := map[string]time.Duration{"empty": 8 * time.Second, "stale": 8 * time.Second, "fresh": 25 * time.Second, "empty-fresh": 25 * time.Second}[e.cs.CrashLock]; ok && kind == "Lock" && expected == 1 && f == c01fNone {
 		// the lock file of a dead holder is in the way: the Locker has to take it over within its
 		// staleness rule; if it does not, the request hangs -- cancel it and record that
 		err := e.waitT(1, bound)
